@@ -3,9 +3,9 @@
 //! Built in `release` and in `dbg` (overflow checks): a panic on an input
 //! whose mathematical result is in range is a violation.
 
-use checks::domain::Domain;
-use checks::fmts::IntS;
-use checks::for_int_fmts;
+use scalar::domain::Domain;
+use scalar::fmts::IntS;
+use scalar::for_int_fmts;
 use common::refmodel::{conv_int, f64_to_int, in_range, int_to_f32, int_to_f64, Fmt, INT_FMTS};
 use common::{catch, guard, json, Ctx, Value};
 use dasp_frame::{Frame, NChannels};
